@@ -1,4 +1,5 @@
 import Siot.Lemmas.Sync
+import Siot.Lemmas.SyncExchange
 import Siot.Gen.Sync
 /-
 C02 — Linked instances converge on the shared device tree.
@@ -87,6 +88,21 @@ theorem c02_points_converge (L U : List Point) (hL : IdUnique L) (hU : IdUnique 
     exact newest_down_iff L U hL hU hadm p
   · rw [lww_mem_iff _ _ h2 a2 p]
     exact newest_up_iff L U hL hU hadm p
+
+/-- **C02 (where the pass looks, the two stores agree afterwards).** The same on the store model itself:
+when `syncNode` reaches a node that both instances hold (snapshots `nl`, `nu` of its two copies) and performs
+the exchange, then afterwards the node's rows on the downstream store and on the upstream store are the same —
+for every identity the newest point found on either side — provided the stored rows are well formed (what the
+store writes: normalised, never NaN) and two different points of one identity never share a time stamp. -/
+theorem c02_exchange_converges_on_stores (s : Pair) (ha : Inv s.a) (hb : Inv s.b) (nl nu : NE) (hid : nu.id = nl.id)
+    (hl : nl.pts = ptsOf s.a nl.id) (hu : nu.pts = ptsOf s.b nl.id)
+    (hsl : StoredRows (ptsOf s.a nl.id)) (hsu : StoredRows (ptsOf s.b nl.id))
+    (hadm : Admissible (ptsOf s.a nl.id ++ ptsOf s.b nl.id)) (p : Point) :
+    (p ∈ ptsOf (syncExchange s nl nu).a nl.id ↔ Newest (ptsOf s.a nl.id ++ ptsOf s.b nl.id) p) ∧
+    (p ∈ ptsOf (syncExchange s nl nu).b nl.id ↔ Newest (ptsOf s.a nl.id ++ ptsOf s.b nl.id) p) := by
+  obtain ⟨r1, r2⟩ := syncExchange_node_rows s nl nu hid hl hu hsl hsu
+  rw [r1, r2]
+  exact c02_points_converge _ _ (ha.npu nl.id) (hb.npu nl.id) (fun q hq => (hsl q hq).1) (fun q hq => (hsu q hq).1) hadm p
 
 /-- a pass leaves equal hashes alone: where the two copies of a node carry the same hash, nothing is
     written at all (the pass relies on the hash to find differences — see the open findings) -/
